@@ -45,7 +45,7 @@ DictFromProps(b) == (2 + (b % 2)) * 2^((b \div 2) + 11)
 LzmaPropsByte(lc, lp, pb) == (pb * 5 + lp) * 9 + lc
 FILTER_LZMA2 == 33
 FallbackDict == 4096
-SingleCall == {"easy_buffer", "stream_buffer", "block_buffer"}
+SingleCall == {"easy_buffer", "stream_buffer", "block_buffer", "index_enc"}   \* (index_enc: Blocks from block_buffer)
 
 Pad4(n) == (4 - (n % 4)) % 4
 
